@@ -102,6 +102,10 @@ class C01(Check):
 
     def gen(self, rng, tier, i):
         cfg = calsim.gen_config(rng, rl_prob=0.3, feature=calsim.SAMPLER_KINDS[i % 9])
+        if rng.random() < 0.2:
+            # a model that seeds numpy's global generator and draws from it (the example notebooks' idiom): a pure function
+            # of (theta, N, seed) as long as each simulation has its interpreter to itself
+            cfg["model"]["kind"] = "globalrng"
         if rng.random() < 0.25:
             cfg["convergence_precision"] = rng.choice([0, 0, 1, 2])
         if rng.random() < 0.12 and cfg["model"]["kind"] != "scripted":
